@@ -1,7 +1,141 @@
-/- C14 line-protocol driver (core-only). Stub until the property's model lands. -/
+/- C14 line-protocol driver (core-only). See harness/p14/p14.go for the line format. -/
+import BV.Common.Hex
+import BV.C14.Model
 namespace BV.C14.Driver
+open BV.Hex
+
+def optInt? (s : String) : Option (Option Int) :=
+  if s == "-" then some none else s.toInt?.map some
+
+def parseDep? (s : String) : Option Dep :=
+  match s.splitOn ":" with
+  | [b, st, en, mh, ct, aa] => do
+    let b ← b.toNat?
+    let st ← optInt? st
+    let en ← optInt? en
+    let mh ← mh.toNat?
+    let ct ← ct.toNat?
+    let aa ← aa.toNat?
+    pure ⟨b, st, en, mh, ct, aa⟩
+  | _ => none
+
+/-- nodes as ancestor paths; node i may only refer to an earlier parent. -/
+def parseNodes? (toks : List String) : Option (Array Node) :=
+  toks.foldlM (init := (#[] : Array Node)) fun acc s =>
+    match s.splitOn ":" with
+    | [p, v, t] => do
+      let p ← p.toInt?
+      let v ← hexToNat? v
+      let t ← t.toInt?
+      let i := acc.size
+      if p < 0 then
+        if i == 0 then pure (acc.push [⟨i, v, t⟩]) else none
+      else
+        if p.toNat < i then pure (acc.push (⟨i, v, t⟩ :: acc[p.toNat]!)) else none
+    | _ => none
+
+inductive Query
+  | state (id : Nat) (n : Int)      -- s / d
+  | active (id : Nat) (n : Int)
+  | version (n : Int)
+  | cache (id : Nat)
+
+def parseQuery? (s : String) : Option Query :=
+  let kind := s.take 1 |>.toString
+  let rest := s.drop 1 |>.toString
+  match rest.splitOn "@" with
+  | [a, n] => do
+    let n ← n.toInt?
+    if kind == "v" then (if a == "" then some (.version n) else none)
+    else do
+      let a ← a.toNat?
+      if kind == "s" || kind == "d" then some (.state a n)
+      else if kind == "a" then some (.active a n)
+      else none
+  | [a] => do
+    let a ← a.toNat?
+    if kind == "c" then some (.cache a) else none
+  | _ => none
+
+/-- histories on which the theorems speak: window ≥ 2 and MTP monotone on the queried chain. -/
+def wf (net : Net) (n : Node) : Bool := decide (2 ≤ net.window) && Spec.mtpMono n
+
+def stStr : Option St → String
+  | none => "panic"
+  | some s => toString (Spec.St.code s)
+
+structure Ctx where
+  net : Net
+  nodes : Array Node
+  deps : List (Dep × Model.Cache)
+
+def nodeAt (cx : Ctx) (n : Int) : Option Node :=
+  if n < 0 then some [] else cx.nodes[n.toNat]?
+
+def setCache (deps : List (Dep × Model.Cache)) (id : Nat) (c : Model.Cache) : List (Dep × Model.Cache) :=
+  deps.mapIdx fun i dc => if i == id then (dc.1, c) else dc
+
+/-- One query: the Model runs (and threads the caches); on well-formed histories the answer
+    printed is the Spec's (they agree by `state_eq_spec`; a disagreement would print `DIVERGE`). -/
+def runQuery (cx : Ctx) (q : Query) : Ctx × String :=
+  match q with
+  | .state id n =>
+    match cx.deps[id]?, nodeAt cx n with
+    | some (d, c), some nd =>
+      let (c', r) := Model.thresholdState cx.net d c nd
+      let cx' := { cx with deps := setCache cx.deps id c' }
+      if wf cx.net nd then
+        let s := Spec.state cx.net d nd
+        (cx', if r == some s then stStr (some s) else "DIVERGE:" ++ stStr (some s) ++ "/" ++ stStr r)
+      else (cx', stStr r)
+    | none, some _ => (cx, "err")
+    | _, none => (cx, "bad-op")
+  | .active id n =>
+    match cx.deps[id]?, nodeAt cx n with
+    | some (d, c), some nd =>
+      let (c', r) := Model.thresholdState cx.net d c nd
+      let cx' := { cx with deps := setCache cx.deps id c' }
+      let r' := if wf cx.net nd then some (Spec.state cx.net d nd) else r
+      (cx', match r' with | none => "panic" | some s => if s == .active then "1" else "0")
+    | none, some _ => (cx, "err")
+    | _, none => (cx, "bad-op")
+  | .version n =>
+    match nodeAt cx n with
+    | some nd =>
+      let (deps', r) := Model.calcNextBlockVersion cx.net cx.deps nd Spec.VB_TOP_BITS
+      let cx' := { cx with deps := deps' }
+      if wf cx.net nd then
+        let v := Spec.nextVersion cx.net (cx.deps.map (·.1)) nd
+        (cx', if r == some v then natToHex v else "DIVERGE")
+      else (cx', match r with | none => "panic" | some v => natToHex v)
+    | none => (cx, "bad-op")
+  | .cache id =>
+    match cx.deps[id]? with
+    | some (_, c) =>
+      (cx, String.ofList (cx.nodes.toList.map fun nd =>
+        match Model.Cache.get c nd with
+        | none => '-'
+        | some s => Char.ofNat (48 + Spec.St.code s)))
+    | none => (cx, "bad-op")
+
+def runAll (cx : Ctx) : List Query → List String → List String
+  | [], acc => acc.reverse
+  | q :: qs, acc =>
+    let (cx', s) := runQuery cx q
+    runAll cx' qs (s :: acc)
 
 def handle : List String → String
-  | _ => "unimplemented"
+  | ["q", w, t, deps, nodes, queries] =>
+    match w.toNat?, t.toNat?, (deps.splitOn ";").mapM parseDep?,
+          parseNodes? (nodes.splitOn ","), (queries.splitOn ",").mapM parseQuery? with
+    | some w, some t, some ds, some ns, some qs =>
+      if ds.length ≠ 6 then "bad-op" else
+      let cx : Ctx := ⟨⟨w, t⟩, ns, ds.map (fun d => (d, []))⟩
+      let outs := runAll cx qs []
+      if outs.contains "bad-op" then "bad-op"
+      else if outs.contains "panic" then "panic"   -- a Go panic aborts the whole line
+      else ",".intercalate outs
+    | _, _, _, _, _ => "bad-op"
+  | _ => "bad-op"
 
 end BV.C14.Driver
